@@ -22,16 +22,16 @@ type e1inl struct {
 }
 
 type e1 struct {
-	A   int8            `config:"a"`
-	S   string          `config:"s"`
-	N   e1in            `config:"n"`
-	L   []e1in          `config:"l"`
-	M   map[string]e1in `config:"m"`
-	P   *e1in           `config:"p"`
-	Inl e1inl           `config:",inline"`
-	Arr [2]int          `config:"arr"`
-	R   string          `config:"r"`
-	D   time.Duration   `config:"d"`
+	A    int8            `config:"a"`
+	S    string          `config:"s"`
+	N    e1in            `config:"n"`
+	L    []e1in          `config:"l"`
+	M    map[string]e1in `config:"m"`
+	P    *e1in           `config:"p"`
+	Inl  e1inl           `config:",inline"`
+	Arr  [2]int          `config:"arr"`
+	R    string          `config:"r"`
+	D    time.Duration   `config:"d"`
 	Deep struct {
 		In e1in `config:"in"`
 	} `config:"deep"`
@@ -43,10 +43,10 @@ func validIn() map[string]interface{} {
 
 // fault kinds
 const (
-	fWrongType = iota // an object where a number is expected
-	fConversion       // text that does not parse
-	fRange            // a number outside the target range (symbolic, constrained out of range)
-	fValidator        // a value that breaks min=1
+	fWrongType  = iota // an object where a number is expected
+	fConversion        // text that does not parse
+	fRange             // a number outside the target range (symbolic, constrained out of range)
+	fValidator         // a value that breaks min=1
 	nFaultKinds
 )
 
